@@ -5,8 +5,11 @@ C03 — quota admission never lets usage pass the quota's limit.  Model of
                                                        snapshotPostFilterState
   pkg/scheduler/plugins/elasticquota/core/group_quota_manager.go
       ReservePod, UnreservePod, OnPodAdd, OnPodDelete, updatePodUsedNoLock,
-      updateGroupDeltaUsedNoLock, getCurToAllParentGroupQuotaInfoNoLock
-  pkg/scheduler/plugins/elasticquota/core/quota_info.go addUsedNonNegativeNoLock
+      updateGroupDeltaUsedNoLock, getCurToAllParentGroupQuotaInfoNoLock,
+      UpdateQuota, deleteQuotaNoLock, updateQuotaNoLockWhenParentChange (re-parenting),
+      resetQuotaNoLock / rebuildAllGroupQuotaNoLock (tree reset after an is-parent / allow-lent flip)
+  pkg/scheduler/plugins/elasticquota/core/quota_info.go addUsedNonNegativeNoLock, clearForResetNoLock,
+      IsQuotaMetaChange, IsQuotaParentChange, updateQuotaInfoFromRemote
 Only the `used` side of the accounting is modelled (the request side / runtime computation is
 C01/C02): the runtime quota of a group is an *input* (`setRuntime`, the value the manager holds in
 `CalculateInfo.Runtime` after `RefreshRuntime`).
@@ -33,12 +36,19 @@ def rootName : Nat := 0
 structure Quota where
   name    : Nat
   parent  : Nat
+  /-- `QuotaInfo.IsParent` (label quota.scheduling.koordinator.sh/is-parent). -/
+  isParent : Bool
+  /-- `QuotaInfo.AllowLentResource` (label quota.scheduling.koordinator.sh/allow-lent-resource). -/
+  lent    : Bool
   max     : RL
   min     : RL
   /-- `CalculateInfo.Runtime` as last refreshed (input). -/
   runtime : RL
   used    : Nat → Int
   npUsed  : Nat → Int
+  /-- `SelfUsed` / `SelfNonPreemptibleUsed`: what arrived with `selfQuotaIndex` = this group (its own pods). -/
+  selfUsed : Nat → Int
+  selfNp   : Nat → Int
 
 /-- a pod object (immutable part) + its `PodInfo` in the quota's `PodCache`. -/
 structure Pod where
@@ -61,8 +71,9 @@ structure Cfg where
 deriving DecidableEq, Repr
 
 def rootQuota : Quota :=
-  { name := rootName, parent := rootName, max := RL.empty, min := RL.empty, runtime := RL.empty,
-    used := fun _ => 0, npUsed := fun _ => 0 }
+  { name := rootName, parent := rootName, isParent := true, lent := false,
+    max := RL.empty, min := RL.empty, runtime := RL.empty,
+    used := fun _ => 0, npUsed := fun _ => 0, selfUsed := fun _ => 0, selfNp := fun _ => 0 }
 
 def init (dims : Nat) : State := { dims := dims, quotas := [rootQuota], pods := [] }
 
@@ -136,13 +147,16 @@ def attempt (s : State) (cfg : Cfg) (p : Pod) : Verdict :=
 
 def clamp0 (x : Int) : Int := if x < 0 then 0 else x
 
-/-- `addUsedNonNegativeNoLock` (Used and NonPreemptibleUsed; the Self* copies are not observed). -/
-def addUsed (g : Quota) (δ nδ : Nat → Int) : Quota :=
-  { g with used := fun d => clamp0 (g.used d + δ d), npUsed := fun d => clamp0 (g.npUsed d + nδ d) }
+/-- `addUsedNonNegativeNoLock(delta, deltaNonPreemptibleUsed, isSelfUsed)`. -/
+def addUsed (g : Quota) (δ nδ : Nat → Int) (self : Bool) : Quota :=
+  { g with used := fun d => clamp0 (g.used d + δ d), npUsed := fun d => clamp0 (g.npUsed d + nδ d)
+           selfUsed := if self then fun d => clamp0 (g.selfUsed d + δ d) else g.selfUsed
+           selfNp := if self then fun d => clamp0 (g.selfNp d + nδ d) else g.selfNp }
 
-/-- `updateGroupDeltaUsedNoLock`: every group on the path gets the delta. -/
-def applyDelta (s : State) (names : List Nat) (δ nδ : Nat → Int) : List Quota :=
-  s.quotas.map fun g => if g.name ∈ names then addUsed g δ nδ else g
+/-- `updateGroupDeltaUsedNoLock(quotaName, delta, deltaNP, selfQuotaIndex)`: every group on the path gets the
+    delta; `self = some n` (index 0, the start group `n`) also books it as that group's own, `none` = index -1. -/
+def applyDelta (s : State) (names : List Nat) (self : Option Nat) (δ nδ : Nat → Int) : List Quota :=
+  s.quotas.map fun g => if g.name ∈ names then addUsed g δ nδ (self == some g.name) else g
 
 def setPod (ps : List Pod) (id : Nat) (f : Pod → Pod) : List Pod :=
   ps.map fun x => if x.id = id then f x else x
@@ -157,7 +171,7 @@ def reserve (s : State) (id : Nat) : State :=
     | some q =>
       if !p.inCache || p.assigned then s else
       { s with
-        quotas := applyDelta s (pathNames s p.quota) (mreq q p) (fun d => if p.np then mreq q p d else 0)
+        quotas := applyDelta s (pathNames s p.quota) (some p.quota) (mreq q p) (fun d => if p.np then mreq q p d else 0)
         pods := setPod s.pods id fun x => { x with assigned := true } }
 
 /-- `UnreservePod` → `updatePodUsedNoLock(quota, pod, nil)`, `updatePodIsAssignedNoLock(false)`. -/
@@ -170,7 +184,7 @@ def unreserve (s : State) (id : Nat) : State :=
     | some q =>
       if !p.inCache || !p.assigned then s else
       { s with
-        quotas := applyDelta s (pathNames s p.quota) (fun d => -(mreq q p d)) (fun d => if p.np then -(mreq q p d) else 0)
+        quotas := applyDelta s (pathNames s p.quota) (some p.quota) (fun d => -(mreq q p d)) (fun d => if p.np then -(mreq q p d) else 0)
         pods := setPod s.pods id fun x => { x with assigned := false } }
 
 /-- `OnPodDelete` (used side): an assigned pod gives its request back, the `PodInfo` is dropped. -/
@@ -184,7 +198,7 @@ def podDelete (s : State) (id : Nat) : State :=
       if !p.inCache then s else
       { s with
         quotas := if p.assigned then
-            applyDelta s (pathNames s p.quota) (fun d => -(mreq q p d)) (fun d => if p.np then -(mreq q p d) else 0)
+            applyDelta s (pathNames s p.quota) (some p.quota) (fun d => -(mreq q p d)) (fun d => if p.np then -(mreq q p d) else 0)
           else s.quotas
         pods := setPod s.pods id fun x => { x with inCache := false, assigned := false } }
 
@@ -203,19 +217,85 @@ def podAdd (s : State) (id : Nat) : State :=
 def podDef (s : State) (id quota : Nat) (np : Bool) (req : RL) : State :=
   { s with pods := s.pods ++ [{ id := id, quota := quota, np := np, req := req, inCache := false, assigned := false }] }
 
-/-- `OnQuotaAdd` / `OnQuotaUpdate` with unchanged meta: only `Max`/`Min` are replaced, `Used` stays. -/
-def quotaSet (s : State) (n parent : Nat) (mx mn : RL) : State :=
+/-- `quotav1.IsZero` on the declared dimensions. -/
+def allZero (D : Nat) (a : Nat → Int) : Bool := (List.range D).all fun d => a d == 0
+
+/-- `UpdateQuota`, quota not yet known: `updateQuotaInternalNoLock(new, nil)` — a fresh `QuotaInfo`. -/
+def quotaAdd (s : State) (n parent : Nat) (isParent lent : Bool) (mx mn : RL) : State :=
+  { s with quotas := s.quotas ++ [{ name := n, parent := parent, isParent := isParent, lent := lent,
+                                    max := mx, min := mn, runtime := RL.empty,
+                                    used := fun _ => 0, npUsed := fun _ => 0,
+                                    selfUsed := fun _ => 0, selfNp := fun _ => 0 }] }
+
+/-- `UpdateQuota` with unchanged meta (`updateQuotaInternalNoLock`): only `Max`/`Min` are replaced, `Used` stays. -/
+def quotaMaxMin (s : State) (n : Nat) (mx mn : RL) : State :=
+  { s with quotas := s.quotas.map fun q => if q.name = n then { q with max := mx, min := mn } else q }
+
+/-- `deleteQuotaNoLock` (used side): the group leaves `quotaInfoMap`, its `Used` / `NonPreemptibleUsed` are taken
+    from the old parent and every group above it (`selfQuotaIndex = -1`), unless both are zero. -/
+def deleteQuota (s : State) (n : Nat) : State :=
   match findQ s.quotas n with
-  | some _ => { s with quotas := s.quotas.map fun q => if q.name = n then { q with max := mx, min := mn } else q }
-  | none => { s with quotas := s.quotas ++ [{ name := n, parent := parent, max := mx, min := mn, runtime := RL.empty,
-                                              used := fun _ => 0, npUsed := fun _ => 0 }] }
+  | none => s
+  | some q =>
+    let s1 : State := { s with quotas := s.quotas.filter fun g => g.name != n }
+    if allZero s.dims q.used && allZero s.dims q.npUsed then s1
+    else { s1 with quotas := applyDelta s1 (pathNames s1 q.parent) none (fun d => -(q.used d)) (fun d => -(q.npUsed d)) }
+
+/-- `updateQuotaNoLockWhenParentChange`: delete, re-create (fresh `QuotaInfo` from the new object, `PodCache` kept,
+    `Runtime` empty until the next refresh), then add the saved `SelfUsed` (index 0) and — only when the OLD info
+    says `IsParent` — the children's part `Used - SelfUsed` (index -1) to the group and its NEW ancestors; each
+    of the two only if not both of its lists are zero. -/
+def reparent (s : State) (old : Quota) (parent : Nat) (isParent lent : Bool) (mx mn : RL) : State :=
+  let s1 := deleteQuota s old.name
+  let s2 := quotaAdd s1 old.name parent isParent lent mx mn
+  let s3 : State :=
+    if allZero s.dims old.selfUsed && allZero s.dims old.selfNp then s2
+    else { s2 with quotas := applyDelta s2 (pathNames s2 old.name) (some old.name) old.selfUsed old.selfNp }
+  let du := fun d => old.used d - old.selfUsed d
+  let dn := fun d => old.npUsed d - old.selfNp d
+  if old.isParent && !(allZero s.dims du && allZero s.dims dn)
+  then { s3 with quotas := applyDelta s3 (pathNames s3 old.name) none du dn }
+  else s3
+
+/-- what `rebuildAllGroupQuotaNoLock` saves for a group before clearing it: `SelfUsed` / `SelfNonPreemptibleUsed`
+    of an is-parent group, `Used` / `NonPreemptibleUsed` otherwise. -/
+def ownUsed (q : Quota) : (Nat → Int) × (Nat → Int) :=
+  if q.isParent then (q.selfUsed, q.selfNp) else (q.used, q.npUsed)
+
+/-- `clearForResetNoLock`; for the root `resetRootQuotaUsedAndRequest` (used of the system + default quota, which
+    carry no pods in the histories that reach a reset: 0). -/
+def clearQ (q : Quota) : Quota :=
+  if q.name = rootName then { q with used := fun _ => 0, npUsed := fun _ => 0 }
+  else { q with used := fun _ => 0, npUsed := fun _ => 0, selfUsed := fun _ => 0, selfNp := fun _ => 0,
+                runtime := RL.empty }
+
+/-- one iteration of the last loop of `rebuildAllGroupQuotaNoLock` (`q` = the group as saved before clearing):
+    `updateGroupDeltaUsedNoLock(name, savedUsed, savedNonPreemptibleUsed, 0)` over the rebuilt tree. -/
+def reAdd (st : State) (q : Quota) : State :=
+  { st with quotas := applyDelta st (pathNames st q.name) (some q.name) (ownUsed q).1 (ownUsed q).2 }
+
+/-- `resetQuotaNoLock` (Go ranges over a map; additions of non-negative amounts commute, the model takes list order). -/
+def resetAll (s : State) : State :=
+  (s.quotas.filter fun q => q.name != rootName).foldl reAdd { s with quotas := s.quotas.map clearQ }
+
+/-- `OnQuotaAdd` / `OnQuotaUpdate` → `UpdateQuota`: unknown group ⇒ add; meta (parent, is-parent, allow-lent)
+    unchanged ⇒ max/min only; parent changed ⇒ re-parent (whatever else changed); otherwise
+    `updateQuotaInfoFromRemote` + `resetQuotaNoLock`. -/
+def quotaSet (s : State) (n parent : Nat) (isParent lent : Bool) (mx mn : RL) : State :=
+  match findQ s.quotas n with
+  | none => quotaAdd s n parent isParent lent mx mn
+  | some q =>
+    if q.parent = parent ∧ q.isParent = isParent ∧ q.lent = lent then quotaMaxMin s n mx mn
+    else if q.parent ≠ parent then reparent s q parent isParent lent mx mn
+    else resetAll { s with quotas := s.quotas.map fun g =>
+                      if g.name = n then { g with max := mx, min := mn, isParent := isParent, lent := lent } else g }
 
 /-- `RefreshRuntime` wrote a new `CalculateInfo.Runtime` (value supplied by the environment). -/
 def setRuntime (s : State) (n : Nat) (r : RL) : State :=
   { s with quotas := s.quotas.map fun q => if q.name = n then { q with runtime := r } else q }
 
 inductive Op where
-  | quotaSet (n parent : Nat) (mx mn : RL)
+  | quotaSet (n parent : Nat) (isParent lent : Bool) (mx mn : RL)
   | setRuntime (n : Nat) (r : RL)
   | podDef (id quota : Nat) (np : Bool) (req : RL)
   | podAdd (id : Nat)
@@ -226,7 +306,7 @@ inductive Op where
 
 /-- one event; the output is the PreFilter verdict of an `attempt`. -/
 def step (s : State) : Op → State × Option Verdict
-  | .quotaSet n p mx mn => (quotaSet s n p mx mn, none)
+  | .quotaSet n p ip l mx mn => (quotaSet s n p ip l mx mn, none)
   | .setRuntime n r => (setRuntime s n r, none)
   | .podDef id q np req => (podDef s id q np req, none)
   | .podAdd id => (podAdd s id, none)
